@@ -33,7 +33,10 @@ RULE = ("one case = one history of saves (categories Op/OpX/Op_Y/O/Op_ or, every
         "Pacific/Pago_Pago west, Asia/Kolkata, Pacific/Kiritimati east of UTC) - same expected answer as on a UTC host; "
         "categories that are glob patterns when read as one (Handler[Order], Repo[int], a[b]c, x*y, q?, [, a[!b], [a-c]x, "
         "*, []], Op[_]Y) next to the categories those patterns would select, on all three cassettes x plain / filtered / "
-        "limited / default / windowed lookup x key prefixes + a random stream of histories over them; non-trivial = the lookup "
+        "limited / default / windowed lookup x key prefixes + a random stream of histories over them; windows of 3-8 day "
+        "folders whose matches all sit in ONE or two of them (first / middle / last day; the other folders empty) x limit 2, 3, "
+        "5, more than the matches, none x ordered / scripted round-robin x plain / filtered / default lookup, explicit end "
+        "and end = now (more day prefixes than the limit and fewer: min(limit, matches) either way); non-trivial = the lookup "
         "selects a non-empty proper subset of the stored recordings; distinct = distinct (history, lookup)")
 EXHAUSTIVE = {"quick": False, "thorough": False}
 ASSUMPTIONS = [
@@ -400,6 +403,40 @@ def glob_stream():
     return out
 
 
+def sparse_window_stream():
+    """Deterministic (round 7): windows of several day folders most of which hold NO match - the matches sit in one or
+    two day folders (first / middle / last day of the window; the normal case of "the last 7 days" on a service that was
+    recorded today only) - x limits 2, 3, 5, more than the matches, none x ordered / scripted round-robin x plain /
+    filtered / default lookup; key prefixes in rotation.  min(limit, matches) must come back however many day prefixes
+    the window has compared to the limit."""
+    u = ["%032x" % (0x5a00 + i) for i in range(16)]
+    ta, tb = [["tenant", pv.s("a")]], [["tenant", pv.s("b")]]
+    out = []
+    k = 0
+    # (day folders holding the recordings, window in days [first, last])
+    for busy, (d0, d1) in (((7,), (0, 7)), ((0,), (0, 7)), ((3,), (1, 6)), ((2, 5), (0, 7)), ((4,), (3, 5)), ((6,), (2, 6))):
+        h = []
+        for j in range(6):
+            d = busy[j % len(busy)]
+            t = d * DAY + (j + 1) * H
+            meta = (ta if j != 4 else tb) + ([[INC, pv.b(True)]] if j == 5 else [])
+            h.append(dict(cat="Op", uuid=u[j], ct=t, t=t, meta=meta))
+        h.append(dict(cat="OpX", uuid=u[6], ct=busy[0] * DAY + 8 * H, t=busy[0] * DAY + 8 * H, meta=ta))
+        h.sort(key=lambda e: e["t"])
+        for lim in (2, 3, 5, 50, None):
+            for f, skip, rnd, sched in ((None, None, 0, [0]), (ta_filter(), None, 0, [0]), (None, True, 0, [0]),
+                                        (None, None, 2, [1, 0, 2])):
+                if lim in (50, None) and (f or rnd):
+                    continue
+                out.append(dict(hist=h, kp=KPS[k % len(KPS)], cat="Op", filter=f, limit=lim, random=rnd, sched=sched, seed=0,
+                                start=d0 * DAY + 30 * 60 * 10**6, end=d1 * DAY + 23 * H, now=8 * DAY, skip=skip))
+                k += 1
+        # the default end (now) instead of an explicit one: "everything since a week ago"
+        out.append(dict(hist=h, kp=KPS[k % len(KPS)], cat="Op", filter=None, limit=2, random=0, sched=[0], seed=0,
+                        start=d0 * DAY, end=None, now=7 * DAY + 23 * H, skip=True))
+    return out
+
+
 FAILED_BASE = 4500     # ordinals of recordings none of whose saves succeeded (harness/impl/lookup_driver.py)
 
 
@@ -531,6 +568,8 @@ def generate(rng, tier):
             if j % 4 == 3 and (q["start"] is not None or q["end"] is not None):
                 q["tz"] = TZS[(k + j) % len(TZS)]
             cases.append(q)
+    # round 7: windows of several day folders whose matches sit in one or two of them, under a limit
+    cases += sparse_window_stream()
     return cases
 
 
@@ -833,7 +872,9 @@ MANIFEST = dict(
          '(model side: a Gallina transcription of fnmatch.translate, direct predicate: Python fnmatch); histories in which '
          'saves fail part-way on S3 are included; lookups with a time window are also run in processes whose time zone is '
          'west / east of UTC (the window is naive UTC: same answer), and categories containing glob metacharacters '
-         '([...], *, ?) are looked up on all three cassettes (a category is a literal).',
+         '([...], *, ?) are looked up on all three cassettes (a category is a literal); limited lookups over windows of '
+         'several day folders most of which are empty (matches concentrated in one or two days) must still return '
+         'min(limit, matches) ids.',
     note='Trusted: Coq kernel + vm_compute; hand-written models of the three iter_recording_ids, iter_keys, '
          'find_matching_recording_ids; the C14 matcher model; strftime/listdir/shuffle/choice/uuid as oracles; '
          'correspondence harness. limit=0 divergence (no limit on memory/file, nothing on S3) is an observation.',
